@@ -155,6 +155,8 @@ static void setup_wrapper(Runner &r, const Tier &t) {
         for (unsigned opts : { 0u, 7u }) { MemFace mf; mf.ts = &ts; gr_face *f = mf.make(opts); ctl.counters[0] = ctl.counters[0] + 1; const char *why = nullptr;
             if (f) { ctl.counters[1] = ctl.counters[1] + 1; std::string d = dump_face(f); gr_segment *sg = gr_make_seg(nullptr, f, 0, nullptr, gr_utf8, "ab c", 4, 0); if (sg) gr_seg_destroy(sg);
                 if (w == orig && c.font < 3 && !g_wplain.empty() && d != g_wplain[0]) why = "unmodified compressed font reports a different face than the uncompressed one";
+                // same scheme, another announced size: the block still decodes to the original size, so the table cannot hold "exactly the bytes a reference decoder produces" -> the load must fail
+                if (!why && (w >> 27) == (orig >> 27) && w != orig) why = "compressed table accepted although the announced size differs from the size its block decodes to";
                 gr_face_destroy(f); }
             else if (w == orig) why = "unmodified compressed font rejected";
             if (!why && !mf.outstanding.empty()) why = "borrowed tables outstanding after the face is gone";
